@@ -188,7 +188,7 @@ UNITS.append(subclass_arm_unit("C03"))
 VERIFIED_CALLEES = ("self.error",)
 LEVEL = "other"
 TECHNIQUE = "contract-based deductive verification of the explicit error channel (VCs from the real AST, exception flow explored path by path with fault-raising callee contracts) + bounded run-time contract checking over an argv/config grammar"
-LEVEL_TEXT = 'Proved on the real bodies, with every callee allowed to raise TypeError/KeyError/NSKeyError: every exceptional exit of parse_args / parse_object / parse_string goes through self.error, which raises ArgumentError or prints usage + error line to stderr and exits 2; non-mapping documents and loader errors become TypeError; print_config exits 0 after deleting the request. Not provable with any contract within reach: absence of implicit exceptions in the whole call graph (argparse, PyYAML ...) - that clause is bounded only (42k inputs over an argv/config grammar, both exit_on_error modes).'
+LEVEL_TEXT = 'Proved on the real bodies, with every callee allowed to raise TypeError/KeyError/NSKeyError: every exceptional exit of parse_args / parse_object / parse_string goes through self.error, which raises ArgumentError or prints usage + error line to stderr and exits 2; non-mapping documents and loader errors become TypeError; print_config exits 0 after deleting the request. Since the fourth round also: the exception clauses of every arm of adapt_typehints (an arm rejects with ValueError only; a loader error of PyYAML is suppressed whatever the parser mode) and _check_value_key refusing a non-list for a list-valued option with choices by TypeError (an AssertionError escaped; fixed). Not provable with any contract within reach: absence of implicit exceptions in the whole call graph (argparse, PyYAML ...) - that clause is bounded only (42k inputs over an argv/config grammar, both exit_on_error modes).'
 LEVEL_NOTE = "under construction"
 EXPLANATION = "under construction"
 ASSUMPTIONS = []
